@@ -67,4 +67,22 @@ AfterKid(hmax, z) ==
             IF d1 > hmax THEN [z EXCEPT !.ph = "val", !.d = d1, !.k = 1, !.c = 0, !.slot = 0, !.fresh = TRUE]
             ELSE [z EXCEPT !.d = d1, !.p = PStart(hmax, d1), !.k = 1, !.c = 0, !.fresh = TRUE]
 Quota(hmax, z) == IF z.ph = "root" \/ z.ph = "val" THEN hmax ELSE 2 ^ z.p
+
+(***************************************************************************)
+(* Generative form of the same schedule (used by MC_Stro).  Here f[c][5] is *)
+(* the *recorded* mean of the cell, <<sum, count>> at the moment the cell   *)
+(* was last scanned for opening (count = 0: never scanned, i.e. -infinity): *)
+(* the candidates of the validation phase are chosen by this recorded       *)
+(* value, not by the current one.                                          *)
+(***************************************************************************)
+RecGeq(a, b) == IF b[2] = 0 THEN TRUE ELSE IF a[2] = 0 THEN FALSE ELSE a[1] * b[2] >= b[1] * a[2]
+Scan(T, f, d, p) == LET Q == Qualifying(T, f, d, p) IN
+  [c \in DOMAIN f |-> IF c \in Q THEN [f[c] EXCEPT ![5] = <<Sum(f, c), Nrw(f, c)>>] ELSE f[c]]
+CandChoices(f, chosen, q) ==
+  LET E == {c \in SeqRange(chosen) : Cnt(f, c) >= 2 ^ q} IN {c \in E : \A d \in E : RecGeq(f[c][5], f[d][5])}
+RestartAll(f, cs) == [c \in DOMAIN f |-> IF c \in cs THEN [f[c] EXCEPT ![2] = 0, ![3] = 0] ELSE f[c]]
+\* evaluations the schedule spends before it ends: root phase + openings + validation
+RECURSIVE OpenCost(_, _)
+OpenCost(hmax, d) == IF d > hmax THEN 0 ELSE (2 ^ (PStart(hmax, d) + 2) - 2) + OpenCost(hmax, d + 1)
+TotalCost(hmax) == 2 * hmax + OpenCost(hmax, 1) + (Log2Floor(hmax) + 1) * hmax
 =============================================================================
